@@ -4,6 +4,7 @@ import (
 	"bufio"
 	"context"
 	"encoding/json"
+	"errors"
 	"fmt"
 	"io"
 	"net"
@@ -39,6 +40,7 @@ type flashCase struct {
 	Seen    [][]flashMsg `json:"seen"`
 	Extra   bool         `json:"extra"`
 	Via     string       `json:"via"`
+	Fault   string       `json:"fault"`
 }
 
 func flashText(class, role string) string {
@@ -51,6 +53,8 @@ func flashText(class, role string) string {
 		return "héllo wörld ✓" + role
 	case "empty":
 		return ""
+	case "pct":
+		return "/s?q=caf%C3%A9&p=%41" + role // percent escapes are text like any other (short: no length byte that is a control byte)
 	}
 	return strings.Repeat("x", 300) + role
 }
@@ -96,7 +100,18 @@ func wireGet(ln *fasthttputil.InmemoryListener, path string, cookie []byte, extr
 func TestC12(t *testing.T) {
 	o := newOut(t)
 	defer o.close()
-	app := fiber.New()
+	var lastSeen []flashMsg // what the failing handler of a follow-up request had read (X-Fault)
+	app := fiber.New(fiber.Config{ErrorHandler: func(c fiber.Ctx, err error) error {
+		if c.Get("X-Fault") == "double" {
+			return errors.New("the error handler failed as well")
+		}
+		code := fiber.StatusInternalServerError
+		var fe *fiber.Error
+		if errors.As(err, &fe) {
+			code = fe.Code
+		}
+		return c.Status(code).SendString(err.Error())
+	}})
 	app.Get("/start", func(c fiber.Ctx) error {
 		var msgs []flashMsg
 		_ = json.Unmarshal([]byte(c.Get("X-Msgs")), &msgs)
@@ -129,6 +144,10 @@ func TestC12(t *testing.T) {
 		}
 		for _, m := range c.Redirect().OldInputs() {
 			out = append(out, flashMsg{Key: m.Key, Value: m.Value, Old: true})
+		}
+		if c.Get("X-Fault") != "" {
+			lastSeen = out
+			return fiber.NewError(fiber.StatusBadGateway, "failed after reading the messages")
 		}
 		return c.JSON(out)
 	}).Name("next")
@@ -188,7 +207,7 @@ func TestC12(t *testing.T) {
 					}
 				}
 			}
-			o.violation(map[string]any{"check": "flash-" + what, "prop": "C12", "client": cs.Client, "pending": cs.Pending, "hostile": cs.Hostile, "other_cookie_first": cs.Extra,
+			o.violation(map[string]any{"check": "flash-" + what, "prop": "C12", "client": cs.Client, "pending": cs.Pending, "hostile": cs.Hostile, "other_cookie_first": cs.Extra, "fault": cs.Fault, "via": cs.Via,
 				"non_cookie_octet_in_cookie": fmt.Sprint(lowLevel), "expected": exp, "observed": got})
 		}
 		if cs.Hostile != "none" {
@@ -318,10 +337,23 @@ func TestC12(t *testing.T) {
 				}
 			}
 			for i := 0; i < 2; i++ {
-				resp2, err := wireGet(ln, "/next", cookie, "")
+				xf := ""
+				if i == 0 && cs.Fault != "" && cs.Fault != "none" {
+					xf = "X-Fault: " + cs.Fault + "\r\n"
+					lastSeen = nil
+				}
+				resp2, err := wireGet(ln, "/next", cookie, xf)
 				var got []flashMsg
 				if err != nil {
 					note += " follow-up failed: " + err.Error()
+				} else if xf != "" {
+					// the handler failed after reading: what it had read, and the (error) response must still expire the cookie
+					got = lastSeen
+					var ck2 fasthttp.Cookie
+					ck2.SetKey("fiber_flash")
+					if resp2.Header.Cookie(&ck2) && (len(ck2.Value()) == 0 || (!ck2.Expire().IsZero() && ck2.Expire().Before(time.Now()))) {
+						cookie = nil
+					}
 				} else {
 					_ = json.Unmarshal(resp2.Body(), &got)
 					if resp2.StatusCode() != 200 {
